@@ -13,10 +13,12 @@ tasks, any subset of metrics, ints and floats, zero / negative zero / negative v
 an `int` converts to `float` without rounding (every |i| ≤ 2^53) – it is only needed where the
 statement compares the *true* values of an int and a float.
 
-The percentage column does **not** have the direction / antisymmetry property for zero or negative
-baselines: `PctDirectionFull` and `PctSwapFull` are kept as statements, refuted by witnesses
-(`pct_direction_full_false`, `pct_swap_full_false`) and proved under the extra hypothesis
-(`pct_direction_partial`, `pct_swap_partial`).
+The percentage column (repaired in 207673c: division by `abs(baseline)`, `pct_convention`) follows the direction for
+every baseline (`pct_direction_full`, `improvement_marking_pct`) and is antisymmetric up to neutrality for any two
+non-zero values (`pct_swap_nonzero`).  What remains false is antisymmetry at a **zero** baseline (known finding
+`pct-zero-baseline`): `PctSwapFull` is kept as a statement, refuted by `pct_swap_full_false`, and proved under the
+extra hypothesis in `pct_swap_partial`.  `pct_direction_signed_baseline_Pinned` records the defect of the old formula.
+The transform guards are symmetric since 66ce162 (`guards_symmetric`), so `swap_table_generated` needs no hypothesis.
 -/
 namespace C20
 open Compare
@@ -50,14 +52,13 @@ theorem task_rows_iff (plain showProc : Bool) (specs : List RowSpec) (b c : Stat
   · rintro ⟨t, ht, bt, ct, hb, hc, hr⟩
     exact ⟨t, ht, by simp [hb, hc, hr]⟩
 
-/-- ML jobs / transforms: one group of rows per pair of entries with the same id. -/
+/-- ML jobs / transforms: one group of rows per pair of entries with the same id (when no `is None` guard
+    skips the block; a skipped block has no rows). -/
 theorem join_rows_iff (plain showProc : Bool) (k : Str) (gb gc : Option Str) (specs : List RowSpec) (b c : Stats)
     (bl cl : List Entry) (hb : getList k b = some bl) (hc : getList k c = some cl)
-    (hgb : ∀ g, gb = some g → (getList g b).isSome = true) (hgc : ∀ g, gc = some g → (getList g c).isSome = true) :
+    (hskip : (guardSkips gb b || guardSkips gc c) = false) :
     ∃ rows, joinRows plain showProc k gb gc specs b c = .ok rows ∧
       ∀ r, r ∈ rows ↔ ∃ be ∈ bl, ∃ ce ∈ cl, ce.id = be.id ∧ r ∈ scopeRows plain showProc specs be.id be.sc ce.sc := by
-  have hskip : (guardSkips gb b || guardSkips gc c) = false := by
-    rw [guardSkips_false hgb, guardSkips_false hgc]; rfl
   unfold joinRows
   simp only [hskip, hb, hc]
   cases bl with
@@ -355,15 +356,16 @@ theorem scope_swap (plain showProc : Bool) (specs : List RowSpec) (task : Str) (
     (rows_iff_both_present plain showProc specs task c b _).mpr ⟨s, hs, ha, cv, bv, h2, h1, rfl⟩,
     swap_antisymmetric plain s task _ _ bv cv⟩
 
-/-- the guards of the transform blocks are asymmetric (only the baseline is tested), so the table-level
-    statement assumes that a guarded list is present (not `None`) in both races -/
-def guardsPresent (blocks : List Block) (b c : Stats) : Prop :=
-  ∀ k gb gc specs, Block.joined k gb gc specs ∈ blocks → ∀ g, (gb = some g ∨ gc = some g) →
-    (getList g b).isSome = true ∧ (getList g c).isSome = true
+/-- a block tests the same list for `None` on the baseline and on the contender side (or none at all) -/
+def guardSym : Block → Bool
+  | .joined _ gb gc _ => gb == gc
+  | _ => true
 
-theorem block_swap (plain showProc : Bool) (b c : Stats) (blk : Block)
-    (hg : ∀ k gb gc specs, blk = Block.joined k gb gc specs → ∀ g, (gb = some g ∨ gc = some g) →
-      (getList g b).isSome = true ∧ (getList g c).isSome = true)
+/-- since 66ce162 the transform blocks return early if *either* race has no transform statistics:
+    in the table extracted from the implementation every guard is symmetric -/
+theorem guards_symmetric : ∀ blk ∈ CompareRows.blocks, guardSym blk = true := by decide
+
+theorem block_swap (plain showProc : Bool) (b c : Stats) (blk : Block) (hsym : guardSym blk = true)
     (rs rs' : List Row) (h : blockRows plain showProc b c blk = .ok rs) (h' : blockRows plain showProc c b blk = .ok rs') :
     ∀ r ∈ rs, ∃ r' ∈ rs', swapOf r r' := by
   cases blk with
@@ -383,12 +385,14 @@ theorem block_swap (plain showProc : Bool) (b c : Stats) (blk : Block)
     · rw [hct.2]; exact hr'
   | joined k gb gc specs =>
     intro r hr
-    have hBb : ∀ g', gb = some g' → (getList g' b).isSome = true := fun g' e => (hg k gb gc specs rfl g' (Or.inl e)).1
-    have hBc : ∀ g', gb = some g' → (getList g' c).isSome = true := fun g' e => (hg k gb gc specs rfl g' (Or.inl e)).2
-    have hCb : ∀ g', gc = some g' → (getList g' b).isSome = true := fun g' e => (hg k gb gc specs rfl g' (Or.inr e)).1
-    have hCc : ∀ g', gc = some g' → (getList g' c).isSome = true := fun g' e => (hg k gb gc specs rfl g' (Or.inr e)).2
-    have hns : (guardSkips gb b || guardSkips gc c) = false := by
-      rw [guardSkips_false hBb, guardSkips_false hCc]; rfl
+    have hgg : gb = gc := by simpa [guardSym] using hsym
+    subst hgg
+    by_cases hsk : (guardSkips gb b || guardSkips gb c) = true
+    · exfalso
+      simp only [blockRows, joinRows, hsk, if_true, Except.ok.injEq] at h
+      subst h; cases hr
+    have hns : (guardSkips gb b || guardSkips gb c) = false := by simpa using hsk
+    have hns' : (guardSkips gb c || guardSkips gb b) = false := by rw [Bool.or_comm]; exact hns
     simp only [blockRows] at h h'
     -- both lists are present, otherwise one side is an error or has no rows
     cases hb : getList k b with
@@ -406,8 +410,8 @@ theorem block_swap (plain showProc : Bool) (b c : Stats) (blk : Block)
         | nil => simp at h; subst h; simp at hr
         | cons e bl => simp at h
       | some cl =>
-        obtain ⟨rows, e1, m1⟩ := join_rows_iff plain showProc k gb gc specs b c bl cl hb hc hBb hCc
-        obtain ⟨rows', e2, m2⟩ := join_rows_iff plain showProc k gb gc specs c b cl bl hc hb hBc hCb
+        obtain ⟨rows, e1, m1⟩ := join_rows_iff plain showProc k gb gb specs b c bl cl hb hc hns
+        obtain ⟨rows', e2, m2⟩ := join_rows_iff plain showProc k gb gb specs c b cl bl hc hb hns'
         rw [e1] at h; cases h
         rw [e2] at h'; cases h'
         obtain ⟨be, hbe, ce, hce, hid, hr⟩ := (m1 r).mp hr
@@ -416,7 +420,7 @@ theorem block_swap (plain showProc : Bool) (b c : Stats) (blk : Block)
         rw [hid]; exact hr'
 
 /-- **swap_antisymmetric (whole table)**: every row of `compare(b, c)` has its mirror image in `compare(c, b)`. -/
-theorem swap_table (blocks : List Block) (plain showProc : Bool) (b c : Stats) (hg : guardsPresent blocks b c)
+theorem swap_table (blocks : List Block) (plain showProc : Bool) (b c : Stats) (hg : ∀ blk ∈ blocks, guardSym blk = true)
     (rows rows' : List Row) (h : metricsTable blocks plain showProc b c = .ok rows)
     (h' : metricsTable blocks plain showProc c b = .ok rows') :
     ∀ r ∈ rows, ∃ r' ∈ rows', swapOf r r' := by
@@ -437,36 +441,40 @@ theorem swap_table (blocks : List Block) (plain showProc : Bool) (b c : Stats) (
         | ok r2 =>
           rcases List.mem_cons.mp hblk with rfl | hin
           · exact ⟨r1, h1⟩
-          · exact ih (fun k gb gc specs hm => hg k gb gc specs (List.mem_cons_of_mem _ hm)) r2 h2 hin
+          · exact ih (fun bk hm => hg bk (List.mem_cons_of_mem _ hm)) r2 h2 hin
   obtain ⟨rs', hrs'⟩ := hok
   obtain ⟨r', hr', hsw⟩ := block_swap plain showProc b c blk
-    (fun k gb gc specs e => hg k gb gc specs (by rw [← e]; exact hblk)) rs rs' hrs hrs' r hmem
+    (hg blk hblk) rs rs' hrs hrs' r hmem
   exact ⟨r', (table_rows_iff blocks plain showProc c b rows' h' r').mpr ⟨blk, hblk, rs', hrs', hr'⟩, hsw⟩
+
+/-- **swap_antisymmetric for the comparison as implemented**: no hypothesis on the races is left -/
+theorem swap_table_generated (plain showProc : Bool) (b c : Stats) (rows rows' : List Row)
+    (h : metricsTable CompareRows.blocks plain showProc b c = .ok rows)
+    (h' : metricsTable CompareRows.blocks plain showProc c b = .ok rows') :
+    ∀ r ∈ rows, ∃ r' ∈ rows', swapOf r r' :=
+  swap_table CompareRows.blocks plain showProc b c guards_symmetric rows rows' h h'
 
 /-! ### the percentage column -/
 
-/-- all call sites of the table extracted from the implementation use the same convention for the relative
-    difference: all divide by `baseline` (the code as it stands: then `pct_direction_full_false` applies, and
-    `pct_direction_partial` needs a positive baseline) or all divide by `abs(baseline)` (then
-    `pct_direction_partial` covers every non-zero baseline).  Which one holds is reported by `translate`
-    (`pct_divides_by_abs_baseline` in the evidence) and exercised by the correspondence streams. -/
-theorem pct_convention_uniform :
-    (∀ s ∈ allSpecs CompareRows.blocks, s.pctAbs = false) ∨ (∀ s ∈ allSpecs CompareRows.blocks, s.pctAbs = true) := by
-  decide
+/-- since 207673c every call site of the table extracted from the implementation divides by `abs(baseline)`:
+    the relative difference has the sign of the absolute difference -/
+theorem pct_convention : ∀ s ∈ allSpecs CompareRows.blocks, s.pctAbs = true := by decide
 
 /-- what the property text asks of the percentage column as well: colour follows the direction … -/
 def PctDirectionFull (absB : Bool) : Prop :=
   ∀ (incGood : Bool) (b c : Val), b.exact → c.exact →
-    ((pctCell false incGood absB b c).colour = .green → (incGood = true ∧ b.rat < c.rat) ∨ (incGood = false ∧ c.rat < b.rat))
+    ((pctCell false incGood absB b c).colour = .green → (incGood = true ∧ b.rat < c.rat) ∨ (incGood = false ∧ c.rat < b.rat)) ∧
+    ((pctCell false incGood absB b c).colour = .red → (incGood = true ∧ c.rat < b.rat) ∨ (incGood = false ∧ b.rat < c.rat))
 
 /-- … and swapping baseline and contender flips its colour -/
 def PctSwapFull (absB : Bool) : Prop :=
   ∀ (incGood : Bool) (b c : Val), b.wf → c.wf →
     (pctCell false incGood absB c b).colour = (pctCell false incGood absB b c).colour.flip
 
-/-- witness for the division by `baseline` (the convention in use): baseline −1, contender −2 on a higher-is-better
-    row: the value *decreased*, yet the percentage cell is `+100.00%` in green -/
-theorem pct_direction_full_false : ¬ PctDirectionFull false := by
+/-- historical (the code before 207673c divided by the signed `baseline`): baseline −1, contender −2 on a
+    higher-is-better row: the value *decreased*, yet the percentage cell was `+100.00%` in green.  Pinned so that
+    a return to the signed division is known to break the direction clause. -/
+theorem pct_direction_signed_baseline_Pinned : ¬ PctDirectionFull false := by
   intro h
   have hex1 : (Val.int (-1)).exact := by simp [Val.exact, fl_one]
   have hex2 : (Val.int (-2)).exact := by
@@ -479,11 +487,12 @@ theorem pct_direction_full_false : ¬ PctDirectionFull false := by
     · rw [e]; rfl
     · have := thr_pos 2; simp [Val.rat, SM.val] at h1; linarith
     · have := thr_le_one 2; simp [Val.rat, SM.val] at h1; linarith
-  rcases h true (.int (-1)) (.int (-2)) hex1 hex2 hcol with ⟨_, h2⟩ | ⟨h1, _⟩
+  rcases (h true (.int (-1)) (.int (-2)) hex1 hex2).1 hcol with ⟨_, h2⟩ | ⟨h1, _⟩
   · norm_num [Val.rat] at h2
   · cases h1
 
-/-- witness (either convention): baseline 0, contender 5 prints `0.00%` neutral; swapped it prints `-100.00%` green -/
+/-- KNOWN FINDING `pct-zero-baseline`, witness (either convention): baseline 0, contender 5 prints `0.00%`
+    neutral; swapped it prints `-100.00%` green – the percentage column is not antisymmetric at a zero baseline -/
 theorem pct_swap_full_false (absB : Bool) : ¬ PctSwapFull absB := by
   intro h
   have h1 := h false (.int 0) (.int 5) trivial trivial
@@ -569,6 +578,36 @@ theorem pct_direction_partial (incGood absB : Bool) (b c : Val) (hb : b.exact) (
     cases incGood <;> simp [smallerCol, hlt]
   · simp [neutr]
 
+/-- **pct_direction_full**: with the division by `abs(baseline)` the percentage cell follows the direction for
+    *every* baseline (a zero baseline prints `0.00%` neutral, so nothing is marked). -/
+theorem pct_direction_full : PctDirectionFull true := by
+  intro incGood b c hb hc
+  by_cases ht : b.truthy = true
+  · exact pct_direction_partial incGood true b c hb hc ht (Or.inl rfl)
+  · have hf : b.truthy = false := by simpa using ht
+    unfold pctCell
+    rw [pctVal_of_falsy true hf c, mkCell_zero_mag]
+    simp [neutr]
+
+/-- the Diff % cell of every row of the comparison as implemented: green only for a real improvement, red only
+    for a real regression, by the generated direction of the row (throughput up is good, everything else down) -/
+theorem improvement_marking_pct (s : RowSpec) (hs : s ∈ allSpecs CompareRows.blocks) (task : Str) (unit : Option Str)
+    (bv cv : Val) (hb : bv.exact) (hc : cv.exact) :
+    ((mkRow false s task unit bv cv).pct.colour = .green →
+      if hasInfix throughputWord s.label then bv.rat < cv.rat else cv.rat < bv.rat) ∧
+    ((mkRow false s task unit bv cv).pct.colour = .red →
+      if hasInfix throughputWord s.label then cv.rat < bv.rat else bv.rat < cv.rat) := by
+  have hd := direction_table s hs
+  have hp := pct_convention s hs
+  have h := pct_direction_full s.incGood bv cv hb hc
+  simp only [mkRow, hp]
+  rw [← hd]
+  constructor
+  · intro hg
+    rcases h.1 hg with ⟨h1, h2⟩ | ⟨h1, h2⟩ <;> simp [h1, h2]
+  · intro hr
+    rcases h.2 hr with ⟨h1, h2⟩ | ⟨h1, h2⟩ <;> simp [h1, h2]
+
 /-- **pct_swap_partial**: for two non-zero values of equal sign (any two non-zero values at a call site that
     divides by `abs(baseline)`), exchanging baseline and contender never shows the same non-neutral colour twice
     and never prints `+` twice: a `+`/greater cell becomes a `-` cell that is the opposite colour or
@@ -647,6 +686,17 @@ theorem pct_swap_partial (plain incGood absB : Bool) (b c : Val) (hb : b.wf) (hc
   rw [hneg, hneg, hsg]
   cases ((b.sub c).toSM.neg != (!absB && c.toSM.neg)) <;> simp
 
+/-- the percentage column of the comparison as implemented (division by `abs(baseline)`): for any two non-zero
+    values, whatever their signs, the swap turns a `+`/greater cell into a `-` cell of the opposite colour (or neutral) -/
+theorem pct_swap_nonzero (plain incGood : Bool) (b c : Val) (hb : b.wf) (hc : c.wf)
+    (tb : b.truthy = true) (tc : c.truthy = true) :
+    let d := pctCell plain incGood true b c
+    let e := pctCell plain incGood true c b
+    (d.plus = true → e.plus = false ∧ e.neg = true ∧ (e.colour = d.colour.flip ∨ e.colour = neutr plain)) ∧
+    (e.plus = true → d.plus = false ∧ d.neg = true ∧ (d.colour = e.colour.flip ∨ d.colour = neutr plain)) ∧
+    (d.n ≠ 0 → e.n ≠ 0 → d.neg ≠ e.neg) :=
+  pct_swap_partial plain incGood true b c hb hc tb tc (Or.inl rfl)
+
 /-! ## plain_eq_rich_minus_colour -/
 
 /-- **plain_eq_rich_minus_colour**: the table written to the report file (`plain=True`) is the console
@@ -700,14 +750,6 @@ example : (DCell.render ⟨.none, false, false, 0, 5, false⟩ = ['0', '.', '0',
 /-- the hypotheses of pct_swap_partial / pct_direction_partial are satisfiable (2 → 4) -/
 example : (Val.int 2).wf ∧ (Val.int 2).truthy = true ∧ (Val.int 2).toSM.neg = (Val.int 4).toSM.neg ∧ 0 < (Val.int 2).rat := by
   simp [Val.wf, Val.truthy, Val.toSM, Val.rat]
-/-- guardsPresent is satisfiable: two races without any list attribute set to `None` where a guard looks -/
-example : guardsPresent [Block.joined ['k'] (some ['g']) none []] ⟨⟨[], []⟩, [], [(['g'], some [])]⟩ ⟨⟨[], []⟩, [], [(['g'], some [])]⟩ := by
-  intro k gb gc specs hm g hg
-  simp only [List.mem_singleton, Block.joined.injEq] at hm
-  obtain ⟨_, rfl, rfl, _⟩ := hm
-  rcases hg with hg | hg
-  · cases hg; exact ⟨rfl, rfl⟩
-  · cases hg
 /-- a self comparison with a negative value prints `-0.00%`: the sign bit in `noDifference` is needed -/
 example : pctVal false (.int (-1)) (.int (-1)) = .flt ⟨true, 0⟩ := by
   simp [pctVal, Val.sub, Val.truthy, Val.div, Val.mulK, Val.toSM, Dbl.fl_zero]
